@@ -386,6 +386,17 @@ void pbt_run(const Case& cs, Ctx& ctx) {
           if (dir.read(name, isDir)) die("enum-read-after-end", call + ": read() returned true after it had returned false");
           if (dir.open(L(path), L(pat), dirsOnly)) die("enum-open-twice", call + " succeeded on an object that is already open");
           dir.close();
+          // the same object enumerates again after close(): everything, whatever pattern and dirsOnly were before
+          {
+            std::vector<std::pair<std::string, bool>> all, again;
+            for (auto& n : names) { std::string ep = path.empty() ? n : path + "/" + n; struct stat st; all.push_back(std::make_pair(n, stat(ep.c_str(), &st) == 0 && S_ISDIR(st.st_mode))); }
+            if (!dir.open(L(path), String(), false)) die("enum-reopen", call + ": the object cannot be opened again after close()");
+            int guard2 = 0; while (dir.read(name, isDir)) { again.push_back(std::make_pair(std::string((const char*)name, name.length()), isDir)); if (++guard2 > 1000) die("enum-endless", call); }
+            dir.close();
+            std::sort(all.begin(), all.end()); std::sort(again.begin(), again.end());
+            if (again != all) { std::string a, b; for (auto& e : all) a += e.first + (e.second ? "/ " : " "); for (auto& e : again) b += e.first + (e.second ? "/ " : " "); die("enum-mismatch", call + ", close(), then open(path, \"\", false) on the same object listed { " + b + "}, expected { " + a + "}"); }
+            ctx.label("enum_object_reused");
+          }
           std::sort(have.begin(), have.end());
           if (have != want) {
             std::string a, b; for (auto& e : want) a += e.first + (e.second ? "/ " : " "); for (auto& e : have) b += e.first + (e.second ? "/ " : " ");
